@@ -55,7 +55,7 @@ type hist struct {
 }
 
 func cases(tier string, seed int64) []fw.Case {
-	n, per := 12, 90
+	n, per := 48, 120
 	if tier == "thorough" {
 		n, per = 64, 480
 	}
